@@ -24,6 +24,8 @@ pub enum Ev {
     GetActiveSheetMut,
     ReadAll,
     GetCollectionMut,
+    /// a clone of the lazily opened workbook is materialised completely and dropped
+    CloneReadAll,
     Edit { op: Op },
     NewSheet { name: String },
     RemoveSheet {
@@ -93,11 +95,32 @@ pub fn corpus_dir() -> String {
 }
 pub const UNREADABLE: &[&str] = &["aaa_large_string.xlsx", "wps_comment.xlsx"];
 
+/// hand-written workbooks of /verif/fixtures (constructs of other producers; see make_fixtures.py there)
+pub fn fixtures_dir() -> String {
+    std::env::var("USIM_FIXTURES").unwrap_or_else(|_| "/verif/fixtures".to_string())
+}
+
+/// directory a corpus file name lives in (`fx_*` are the fixtures)
+pub fn corpus_path(name: &str) -> String {
+    if name.starts_with("fx_") {
+        format!("{}/{}", fixtures_dir(), name)
+    } else {
+        format!("{}/{}", corpus_dir(), name)
+    }
+}
+
 pub fn corpus_files() -> Vec<String> {
     let mut v: Vec<String> = std::fs::read_dir(corpus_dir())
         .map(|d| d.filter_map(|e| e.ok()).map(|e| e.file_name().to_string_lossy().to_string()).collect())
         .unwrap_or_default();
-    v.retain(|n| (n.ends_with(".xlsx") || n.ends_with(".xlsm")) && !UNREADABLE.contains(&n.as_str()));
+    v.retain(|n| (n.ends_with(".xlsx") || n.ends_with(".xlsm")) && !UNREADABLE.contains(&n.as_str()) && !n.starts_with("fx_"));
+    let fx: Vec<String> = std::fs::read_dir(fixtures_dir())
+        .map(|d| d.filter_map(|e| e.ok()).map(|e| e.file_name().to_string_lossy().to_string()).filter(|n| n.starts_with("fx_") && n.ends_with(".xlsx")).collect())
+        .unwrap_or_default();
+    // each fixture counts four times: they are few and dense
+    for _ in 0..4 {
+        v.extend(fx.iter().cloned());
+    }
     v.sort();
     v
 }
@@ -106,7 +129,7 @@ pub fn source_bytes(case: &Value) -> Result<Vec<u8>, String> {
     match case["source"]["kind"].as_str().unwrap_or("generated") {
         "corpus" => {
             let f = case["source"]["file"].as_str().unwrap_or("");
-            std::fs::read(format!("{}/{}", corpus_dir(), f)).map_err(|e| format!("corpus file {}: {}", f, e))
+            std::fs::read(corpus_path(f)).map_err(|e| format!("corpus file {}: {}", f, e))
         }
         _ => {
             let ops: Vec<Op> = serde_json::from_value(case["source"]["ops"].clone()).unwrap_or_default();
@@ -311,6 +334,13 @@ pub fn execute(case: &Value, _scratch: &str) -> Outcome {
                         sig.push('a');
                         check_sheet(&lazy, &twin, a, &mut out, "get_active_sheet_mut");
                     }
+                }
+                Ev::CloneReadAll => {
+                    // what happens to a clone is none of the original's business: its raw sheets stay readable
+                    let mut c = lazy.clone();
+                    c.read_sheet_collection();
+                    drop(c);
+                    sig.push('C');
                 }
                 Ev::ReadAll | Ev::GetCollectionMut => {
                     if matches!(ev, Ev::ReadAll) {
@@ -642,7 +672,7 @@ fn image_name_clash(book: &umya::Spreadsheet) -> bool {
 
 fn op_sheet(op: &Op) -> Option<usize> {
     match op {
-        Op::SetText { sheet, .. } | Op::SetRich { sheet, .. } | Op::SetNum { sheet, .. } | Op::SetBool { sheet, .. } | Op::SetFormula { sheet, .. } | Op::SetBlank { sheet, .. } | Op::RemoveCell { sheet, .. } | Op::Bold { sheet, .. } | Op::NumFmt { sheet, .. } | Op::FillColor { sheet, .. } | Op::Hyperlink { sheet, .. } | Op::Comment { sheet, .. } | Op::Merge { sheet, .. } | Op::DefinedName { sheet, .. } | Op::LocalName { sheet, .. } | Op::SheetRemoveRow { sheet, .. } | Op::SheetRemoveCol { sheet, .. } | Op::SheetInsertRow { sheet, .. } | Op::SheetInsertCol { sheet, .. } | Op::ColWidth { sheet, .. } | Op::RowHeight { sheet, .. } | Op::SetState { sheet, .. } | Op::Table { sheet, .. } | Op::CommentRich { sheet, .. } | Op::EditComment { sheet, .. } | Op::Format { sheet, .. } | Op::HideRow { sheet, .. } | Op::HideCol { sheet, .. } | Op::ClearComments { sheet } | Op::RowStyle { sheet, .. } | Op::ColStyle { sheet, .. } | Op::Image { sheet, .. } | Op::Twin { sheet, .. } => Some(*sheet),
+        Op::SetText { sheet, .. } | Op::SetRich { sheet, .. } | Op::SetNum { sheet, .. } | Op::SetBool { sheet, .. } | Op::SetFormula { sheet, .. } | Op::SetBlank { sheet, .. } | Op::RemoveCell { sheet, .. } | Op::Bold { sheet, .. } | Op::NumFmt { sheet, .. } | Op::FillColor { sheet, .. } | Op::Hyperlink { sheet, .. } | Op::Comment { sheet, .. } | Op::Merge { sheet, .. } | Op::DefinedName { sheet, .. } | Op::LocalName { sheet, .. } | Op::SheetRemoveRow { sheet, .. } | Op::SheetRemoveCol { sheet, .. } | Op::SheetInsertRow { sheet, .. } | Op::SheetInsertCol { sheet, .. } | Op::ColWidth { sheet, .. } | Op::RowHeight { sheet, .. } | Op::SetState { sheet, .. } | Op::Table { sheet, .. } | Op::CommentRich { sheet, .. } | Op::EditComment { sheet, .. } | Op::Format { sheet, .. } | Op::HideRow { sheet, .. } | Op::HideCol { sheet, .. } | Op::ClearComments { sheet } | Op::RowStyle { sheet, .. } | Op::ColStyle { sheet, .. } | Op::Image { sheet, .. } | Op::Twin { sheet, .. } | Op::CopyRange { sheet, .. } => Some(*sheet),
         _ => None,
     }
 }
@@ -657,6 +687,7 @@ fn ev_name(e: &Ev) -> &'static str {
         Ev::GetActiveSheetMut => "get_active_sheet_mut",
         Ev::ReadAll => "read_sheet_collection",
         Ev::GetCollectionMut => "get_sheet_collection_mut",
+        Ev::CloneReadAll => "clone_read_all",
         Ev::Edit { .. } => "edit",
         Ev::NewSheet { .. } => "new_sheet",
         Ev::RemoveSheet { .. } => "remove_sheet",
@@ -678,7 +709,7 @@ pub fn file_cost(name: &str) -> u8 {
         "aaa_large.xlsx" | "issue_216.xlsx" | "issue_188_3.xlsx" | "issue_233.xlsx" => 2,
         "issue_194_2.xlsx" | "issue_188_2.xlsx" | "issue_178.xlsx" | "issue_178_2.xlsx" | "issue_181.xlsx" | "issue_181_2.xlsx" | "issue_188.xlsx" => 1,
         _ => {
-            let len = std::fs::metadata(format!("{}/{}", corpus_dir(), name)).map(|m| m.len()).unwrap_or(0);
+            let len = std::fs::metadata(corpus_path(name)).map(|m| m.len()).unwrap_or(0);
             if len > 1_000_000 {
                 2
             } else if len > 400_000 {
@@ -765,6 +796,7 @@ pub fn cases(run_seed: u64, tier: &str, _scratch: &str) -> Vec<Value> {
             if generated && sw.chance(1, 4) { 1 } else { 0 }, // book insert row
             if generated && sw.chance(1, 4) { 1 } else { 0 }, // book remove col
             2 + sw.below(3) as u32, // save
+            sw.below(2) as u32,     // a clone is loaded completely
         ];
         let len = 1 + sc.usize(if big { 6 } else { 15 });
         let cfg = world::GenCfg { sheets: nsheets, ncells: 6, alpha: sw.usize(4), w: [8, 1, 2, 1, 1, 2, 2, 2, 1, 1, 0, 1, 0] };
@@ -786,6 +818,7 @@ pub fn cases(run_seed: u64, tier: &str, _scratch: &str) -> Vec<Value> {
                 11 => Ev::Rename { i, name: format!("Ren{}_{}", hno, k) },
                 12 => Ev::BookInsertRow { i, row: 1 + sc.below(4) as u32, n: 1 + sc.below(2) as u32 },
                 13 => Ev::BookRemoveCol { i, col: 1 + sc.below(4) as u32, n: 1 },
+                15 => Ev::CloneReadAll,
                 _ => Ev::Save { light: sc.chance(1, 4) },
             };
             evs.push(e);
